@@ -97,8 +97,34 @@ func (br *xmpReader) readAttribute(tag *Tag) (attr Attribute, err error) {
 	attr.parent = tag.self
 
 	// Attribute Name
-	if buf, err = br.Peek(maxTagHeaderSize); err != nil {
-		err = errors.Wrap(err, "Attr")
+	for {
+		if buf, err = br.Peek(maxTagHeaderSize); err != nil {
+			err = errors.Wrap(err, "Attr")
+			return
+		}
+		// white space before the name may be longer than the window
+		ws := 0
+		for ws < len(buf) && isWhiteSpace(buf[ws]) {
+			ws++
+		}
+		if ws == 0 {
+			break
+		}
+		if _, err = br.Discard(ws); err != nil {
+			err = errors.Wrap(err, "Attr (discard)")
+			return
+		}
+	}
+	// white space before the end of the tag: there is no further attribute
+	if buf[0] == '>' {
+		br.a = false
+		_, err = br.Discard(1)
+		return
+	}
+	if buf[0] == '/' && len(buf) > 1 && buf[1] == '>' {
+		br.a = false
+		tag.t = soloTag
+		_, err = br.Discard(2)
 		return
 	}
 
